@@ -113,6 +113,7 @@ struct WorldSt {
     a: ContractId,
     b: ContractId,
     c: ContractId,
+    d: ContractId,
     keys: Vec<[u8; 32]>,
     vals: Vec<u8>,
     w: World,
@@ -146,12 +147,27 @@ fn build_world(seed: u64, cfg: &Cfg) -> WorldSt {
     let c = tb.setup_contract(vec![
         op::lw(0x18, RegId::FP, 73), op::lw(0x19, RegId::FP, 74), op::call(0x18, RegId::ZERO, 0x19, RegId::CGAS), op::ret(RegId::ONE),
     ], None, None).contract_id;
+    // D: real contract code made of storage instructions; parameter a = address of three adjacent keys, parameter b =
+    // address of value material.  Executed instruction by instruction like every other code (no injected sequence).
+    let d = tb.setup_contract(vec![
+        op::lw(0x10, RegId::FP, 73), op::lw(0x12, RegId::FP, 74), op::cfei(256), op::move_(0x13, RegId::SSP),
+        op::sww(0x10, 0x11, 0x12), op::srw(0x15, 0x11, 0x10, 0), op::srw(0x15, 0x11, 0x10, 3),
+        op::swri(0x10, 0x12, 40), op::srdi(0x13, 0x10, RegId::ZERO, 40), op::spld(0x15, 0x10),
+        op::addi(0x14, 0x10, 32), op::movi(0x16, 2),
+        op::swwq(0x14, 0x11, 0x12, 0x16), op::srwq(0x13, 0x11, 0x14, 0x16),
+        op::not(0x17, RegId::ZERO), op::supi(0x14, 0x12, 0x17, 8), op::spld(0x15, 0x14),
+        op::movi(0x18, 36), op::movi(0x19, 4), op::srdd(0x13, 0x14, 0x18, 0x19),
+        op::movi(0x18, 4), op::supd(0x14, 0x12, 0x18, 0x19), op::swrd(0x10, 0x13, 0x19),
+        op::scwq(0x10, 0x11, 0x16), op::spld(0x15, 0x10), op::sclr(0x14, 0x16), op::scwq(0x10, 0x11, 0x16),
+        op::srdi(0x13, 0x14, RegId::ZERO, 1),
+        op::ret(RegId::ONE),
+    ], None, None).contract_id;
     let keys = key_table(&mut rng);
     let mut vals = vec![0u8; NV];
     rng.fill(&mut vals[..]);
     let mut storage = tb.get_storage().clone();
     // initial contents: values of assorted lengths (legacy 32-byte slots and dynamic ones) under some keys of the table
-    for cid in [a, b, c] {
+    for cid in [a, b, c, d] {
         for k in &keys {
             if rng.gen_bool(0.45) {
                 let len = if rng.gen_bool(0.5) { 32 } else { [0usize, 1, 7, 8, 16, 31, 33, 40, 64, 100][rng.gen_range(0..10)] };
@@ -163,12 +179,12 @@ fn build_world(seed: u64, cfg: &Cfg) -> WorldSt {
     }
     storage.commit();
     let w = World { params, gas_price: 0, storage, block_height: u32::from(tb.get_block_height()) };
-    WorldSt { tb, a, b, c, keys, vals, w }
+    WorldSt { tb, a, b, c, d, keys, vals, w }
 }
 
 /// the calls of one transaction: (contract entered first, contract it forwards to)
 #[derive(Clone)]
-struct CallPlan { outer: ContractId, inner: Option<ContractId>, fwd: Option<u32> }
+struct CallPlan { outer: ContractId, inner: Option<ContractId>, fwd: Option<u32>, key_index: usize }
 
 struct Tx { checked: Checked<Script>, data_addr: u64, keys_off: usize }
 
@@ -185,7 +201,8 @@ fn build_tx(ws: &mut WorldSt, calls: &[CallPlan], gas_limit: u64, tx_offset: u64
         for c in calls {
             match c.inner {
                 Some(_) => { d.extend(Call::new(c.outer, data_addr + 48 * (n + ii) as u64, data_addr + asset_off as u64).to_bytes()); ii += 1; }
-                None => d.extend(Call::new(c.outer, 0, 0).to_bytes()),
+                // (contract D reads its parameters: address of its three keys, address of the value material)
+                None => d.extend(Call::new(c.outer, data_addr + (keys_off + 32 * c.key_index) as u64, data_addr + (keys_off + 32 * NK + 64) as u64).to_bytes()),
             }
         }
         for c in &inner { d.extend(Call::new(c.inner.unwrap(), 0, 0).to_bytes()); }
@@ -204,10 +221,10 @@ fn build_tx(ws: &mut WorldSt, calls: &[CallPlan], gas_limit: u64, tx_offset: u64
     }
     sc.push(op::ret(RegId::ONE));
     let mut build = |data: Vec<u8>, ws: &mut WorldSt| -> Checked<Script> {
-        let (a, b, c) = (ws.a, ws.b, ws.c);
+        let (a, b, c, d) = (ws.a, ws.b, ws.c, ws.d);
         ws.tb.start_script(sc.clone(), data).gas_price(0).script_gas_limit(gas_limit)
-            .contract_input(a).contract_input(b).contract_input(c).fee_input()
-            .contract_output(&a).contract_output(&b).contract_output(&c);
+            .contract_input(a).contract_input(b).contract_input(c).contract_input(d).fee_input()
+            .contract_output(&a).contract_output(&b).contract_output(&c).contract_output(&d);
         ws.tb.build()
     };
     // the data address depends only on the lengths: build once with a dummy address to learn it
@@ -244,13 +261,15 @@ fn key_add(k: &[u8; 32], i: u64) -> Option<[u8; 32]> {
 fn gen_step(rng: &mut StdRng, s: &Sess, cur: &Dump, cfg: &Cfg) -> PStep {
     let risky = rng.gen_bool(cfg.risky);
     let ki = rng.gen_range(0..NK);
-    let key_ptr = if risky && rng.gen_range(0..12) == 0 { [MEM - 16, u64::MAX - 10, s.buf + BUF + 8, MEM][rng.gen_range(0..4)] } else { s.keys_addr + 32 * ki as u64 };
+    let key_ptr = if risky && rng.gen_range(0..12) == 0 { [MEM - 16, u64::MAX - 10, MEM / 2, MEM][rng.gen_range(0..4)] } else { s.keys_addr + 32 * ki as u64 };
     let len_here = slot_len(cur, &s.cid, &s.keys[ki]);
     let l = len_here.unwrap_or(0) as u64;
     let stat: u8 = if risky && rng.gen_range(0..14) == 0 { [0u8, 1, 3, 8, 15][rng.gen_range(0..5)] } else { STAT };
     let dst_buf = |rng: &mut StdRng| if s.heap != 0 && rng.gen_bool(0.3) { s.heap + rng.gen_range(0..8) * 8 } else { s.buf + rng.gen_range(0..64) * 8 };
     let src_buf = |rng: &mut StdRng| match rng.gen_range(0..3) { 0 => s.buf + rng.gen_range(0..32) * 8, _ => s.vals_addr + rng.gen_range(0..(NV as u64 - 400)) };
     let bad_ptr = |rng: &mut StdRng| [0u64, s.buf + BUF - 8, s.buf + BUF, MEM - 8, u64::MAX - 3, s.buf - 8][rng.gen_range(0..6)];
+    // sources must not reach into call frames (they hold saved gas registers, which legitimately differ between cache variants)
+    let bad_src = |rng: &mut StdRng| [MEM - 8, u64::MAX - 3, MEM / 2, 1u64 << 40, MEM - 40][rng.gen_range(0..5)];
     let count = |rng: &mut StdRng| -> u64 {
         if risky { [0u64, 1, 2, 3, 4, 5, 9][rng.gen_range(0..7)] }
         else {
@@ -280,7 +299,7 @@ fn gen_step(rng: &mut StdRng, s: &Sess, cur: &Dump, cfg: &Cfg) -> PStep {
         }
         6 | 7 => { sets.push((A2 as usize, if rng.gen_bool(0.3) { [0u64, 1, u64::MAX][rng.gen_range(0..3)] } else { rng.gen() })); enc_rrrr(0x3a, KEY, stat, A2, 0) }   // SWW
         8 | 9 => {                                                                                                           // SWWQ
-            sets.push((A2 as usize, if risky && rng.gen_range(0..5) == 0 { bad_ptr(rng) } else { src_buf(rng) }));
+            sets.push((A2 as usize, if risky && rng.gen_range(0..5) == 0 { bad_src(rng) } else { src_buf(rng) }));
             sets.push((A3 as usize, count(rng)));
             enc_rrrr(0x3b, KEY, stat, A2, A3)
         }
@@ -295,9 +314,9 @@ fn gen_step(rng: &mut StdRng, s: &Sess, cur: &Dump, cfg: &Cfg) -> PStep {
         }
         16 | 17 | 18 => {                                                                                                   // SWRD / SWRI
             let m = s.max_len;
-            let len = if risky { [0u64, m, m + 1, 400, 4095, 1 << 33, u64::MAX][rng.gen_range(0..7)] } else { [0u64, 1, 7, 8, 31, 32, 32, 33, 64, 100, 255, 300][rng.gen_range(0..12)].min(m) };
-            sets.push((A2 as usize, if risky && rng.gen_range(0..5) == 0 { bad_ptr(rng) } else { src_buf(rng) }));
-            if rng.gen_bool(0.4) { enc_rri(0xc4, KEY, A2, len.min(4095) as u16) } else { sets.push((A3 as usize, len)); enc_rrrr(0xc3, KEY, A2, A3, 0) }
+            let len = if risky { [0u64, m, m + 1, 400, 1399, 1 << 33, u64::MAX][rng.gen_range(0..7)] } else { [0u64, 1, 7, 8, 31, 32, 32, 33, 64, 100, 255, 300][rng.gen_range(0..12)].min(m) };
+            sets.push((A2 as usize, if risky && rng.gen_range(0..5) == 0 { bad_src(rng) } else if len > 300 { s.vals_addr } else { src_buf(rng) }));
+            if rng.gen_bool(0.4) { enc_rri(0xc4, KEY, A2, len.min(1399) as u16) } else { sets.push((A3 as usize, len)); enc_rrrr(0xc3, KEY, A2, A3, 0) }
         }
         19 | 20 | 21 | 22 => {                                                                                              // SUPD / SUPI
             let m = s.max_len;
@@ -305,7 +324,7 @@ fn gen_step(rng: &mut StdRng, s: &Sess, cur: &Dump, cfg: &Cfg) -> PStep {
             let base = if off == u64::MAX { l } else { off.min(l) };
             let room = m.saturating_sub(base);
             let len = if risky { [0u64, room, room + 1, 63, 1 << 33][rng.gen_range(0..5)] } else { [0u64, 1, 8, 32, 63, 100][rng.gen_range(0..6)].min(room) };
-            sets.push((A2 as usize, if risky && rng.gen_range(0..5) == 0 { bad_ptr(rng) } else { src_buf(rng) }));
+            sets.push((A2 as usize, if risky && rng.gen_range(0..5) == 0 { bad_src(rng) } else if len > 300 { s.vals_addr } else { src_buf(rng) }));
             sets.push((A3 as usize, off));
             if rng.gen_bool(0.4) { enc_rrrr(0xc6, KEY, A2, A3, len.min(63) as u8) } else { sets.push((A4 as usize, len)); enc_rrrr(0xc5, KEY, A2, A3, A4) }
         }
@@ -319,7 +338,8 @@ fn gen_step(rng: &mut StdRng, s: &Sess, cur: &Dump, cfg: &Cfg) -> PStep {
 
 /// per-step result summary used for the cold / warm / flush comparison (everything but the gas registers)
 fn summary(ev: &Value, post_regs: &[u64; 64]) -> Value {
-    let regs: Vec<Value> = (0..64).map(|i| if i == RGGAS || i == RCGAS { json!("-") } else { json!(post_regs[i].to_string()) }).collect();
+    // every register the callee's instructions can touch ($zero..$flag and 0x10..0x1f), the two gas registers blanked
+    let regs: Vec<Value> = (0..32).map(|i| if i == RGGAS || i == RCGAS { json!("-") } else { json!(post_regs[i].to_string()) }).collect();
     json!({"word": ev["word"], "out": ev["out"], "reason": ev.get("reason").cloned().unwrap_or(json!("-")), "regs": regs, "mem": ev["mem"], "std": ev["std"]})
 }
 
@@ -387,7 +407,7 @@ fn run_tx(out: &mut Out, run: u64, vm: &mut Vm<MemoryStorage>, ws: &WorldSt, tx:
         "ev": "Init", "run": run, "kind": "exec", "env": env,
         "regs": regs_json(&s0.regs), "stack": hx(&s0.stack), "hp": s0.hp,
         "tx": hx(vm.transaction().to_bytes()), "early": false, "driver": "vmstorage",
-        "contracts": contracts_json(vm.as_ref(), &[ws.a, ws.b, ws.c]), "inputs": [hx(ws.a), hx(ws.b), hx(ws.c)],
+        "contracts": contracts_json(vm.as_ref(), &[ws.a, ws.b, ws.c, ws.d]), "inputs": [hx(ws.a), hx(ws.b), hx(ws.c), hx(ws.d)],
         "kv": dump_json(&start), "cont": cont,
         "variant": match variant { Variant::Cold => "cold", Variant::Warm => "warm", Variant::Flush => "flush" },
     }));
@@ -412,6 +432,7 @@ fn run_tx(out: &mut Out, run: u64, vm: &mut Vm<MemoryStorage>, ws: &WorldSt, tx:
         let fp = vm.registers()[RFP];
         let cid = if entered { let s = snap(vm); ContractId::new(s.stack[fp as usize..fp as usize + 32].try_into().unwrap()) } else { ContractId::zeroed() };
         let entry_pc = vm.registers()[RPC];
+        if cid == ws.d { continue; }   // D runs its own code
         // a stack buffer (and in every other session a heap buffer), filled with non-zero bytes so that a read that writes
         // nothing is told apart from a read that writes zeros
         if !st_exec(&mut rec, vm, &PStep { sets: vec![], raw: enc_i24(0x91, BUF as u32) }, false, false) { finished = true; break; }   // CFEI
@@ -480,18 +501,20 @@ fn random_gas(rng: &mut StdRng, hi: u64) -> GasCosts {
 }
 
 fn call_plans(rng: &mut StdRng, ws: &WorldSt, second: bool, low_gas: bool) -> Vec<CallPlan> {
-    let (a, b, c) = (ws.a, ws.b, ws.c);
-    let p = |outer, inner| CallPlan { outer, inner, fwd: None };
+    let (a, b, c, d) = (ws.a, ws.b, ws.c, ws.d);
+    let p = |outer, inner| CallPlan { outer, inner, fwd: None, key_index: 0 };
+    let real = |ki: usize| CallPlan { outer: d, inner: None, fwd: None, key_index: ki };
     let mut v = if !second {
-        match rng.gen_range(0..5) {
+        match rng.gen_range(0..6) {
             0 => vec![p(a, None), p(b, None), p(a, None)],
             1 => vec![p(c, Some(b)), p(a, None)],
             2 => vec![p(a, None), p(c, Some(a))],
             3 => vec![p(b, None), p(b, None)],
+            4 => vec![real([0usize, 4, 7][rng.gen_range(0..3)]), p(a, None), real([0usize, 1, 4, 7, 10][rng.gen_range(0..5)])],
             _ => vec![p(a, None), p(b, None)],
         }
     } else {
-        match rng.gen_range(0..4) { 0 => vec![p(b, None), p(a, None)], 1 => vec![p(a, None)], 2 => vec![p(c, Some(a)), p(b, None)], _ => vec![p(a, None), p(a, None)] }
+        match rng.gen_range(0..5) { 0 => vec![p(b, None), p(a, None)], 1 => vec![p(a, None)], 2 => vec![p(c, Some(a)), p(b, None)], 3 => vec![real(4), real(4)], _ => vec![p(a, None), p(a, None)] }
     };
     if low_gas { for c in v.iter_mut() { if rng.gen_bool(0.5) { c.fwd = Some([700u32, 1500, 2500, 6000, 20000][rng.gen_range(0..5)]); } } }
     v
@@ -551,7 +574,7 @@ fn gas(o: &Opts, out: &mut Out, run: &mut u64) {
 fn small(o: &Opts, out: &mut Out, run: &mut u64) {
     let n = if o.thorough() { 60 } else { 6 };
     for k in 0..n {
-        let cfg = Cfg { thorough: o.thorough(), steps_per_session: 8, risky: 0.3, low_gas: false, max_len: [64u64, 33, 100, 32][k as usize % 4], gas: None };
+        let cfg = Cfg { thorough: o.thorough(), steps_per_session: 8, risky: 0.3, low_gas: false, max_len: [64u64, 33, 100, 32, 16][k as usize % 5], gas: None };
         let seed = o.seed.wrapping_mul(1000).wrapping_add(800 + k);
         let mut plans = vec![];
         run_world(out, run, seed, &cfg, Variant::Cold, &mut plans, false);
